@@ -511,3 +511,59 @@ impl ProgLifecycle {
         self.handler(context, H::Item(4, Ev::OnClear), Args::Clear { prev })
     }
 }
+
+/// Wraps the derived lifecycle and adds an `on_init` step that asks for a dynamic lane; the completion handler of
+/// that request records `Mark(DYN_LANE_MARK)`. The documents say on_start is the first handler to run, so the mark
+/// belongs right after the on_start block.
+pub const DYN_LANE_MARK: i32 = -7;
+
+#[derive(Clone)]
+pub struct WithInit<L> {
+    pub inner: L,
+    pub trace: SharedTrace,
+    pub open_dyn: bool,
+}
+
+impl<L: swimos::agent::agent_lifecycle::on_init::OnInit<ProgAgent>> swimos::agent::agent_lifecycle::on_init::OnInit<ProgAgent> for WithInit<L> {
+    fn initialize(
+        &self,
+        action_context: &mut swimos::agent::event_handler::ActionContext<ProgAgent>,
+        meta: swimos_agent::AgentMetadata,
+        context: &ProgAgent,
+    ) {
+        self.inner.initialize(action_context, meta, context);
+        if self.open_dyn {
+            use swimos::agent::event_handler::HandlerAction;
+            let t = self.trace.clone();
+            let hc: Ctx = HandlerContext::default();
+            let mut h = hc.open_value_lane("dyn0", move |_res| hc.effect(move || push(&t, Tr::Mark(DYN_LANE_MARK))));
+            let _ = h.step(action_context, meta, context);
+        }
+    }
+}
+
+impl<L: swimos::agent::agent_lifecycle::on_start::OnStart<ProgAgent>> swimos::agent::agent_lifecycle::on_start::OnStart<ProgAgent> for WithInit<L> {
+    fn on_start(&self) -> impl EventHandler<ProgAgent> + '_ {
+        self.inner.on_start()
+    }
+}
+
+impl<L: swimos::agent::agent_lifecycle::on_stop::OnStop<ProgAgent>> swimos::agent::agent_lifecycle::on_stop::OnStop<ProgAgent> for WithInit<L> {
+    fn on_stop(&self) -> impl EventHandler<ProgAgent> + '_ {
+        self.inner.on_stop()
+    }
+}
+
+impl<L: swimos::agent::agent_lifecycle::on_timer::OnTimer<ProgAgent>> swimos::agent::agent_lifecycle::on_timer::OnTimer<ProgAgent> for WithInit<L> {
+    fn on_timer(&self, timer_id: u64) -> impl EventHandler<ProgAgent> + '_ {
+        self.inner.on_timer(timer_id)
+    }
+}
+
+impl<L: swimos::agent::agent_lifecycle::item_event::ItemEvent<ProgAgent>> swimos::agent::agent_lifecycle::item_event::ItemEvent<ProgAgent> for WithInit<L> {
+    type ItemEventHandler<'a> = L::ItemEventHandler<'a> where Self: 'a;
+
+    fn item_event<'a>(&'a self, context: &ProgAgent, item_name: &'a str) -> Option<Self::ItemEventHandler<'a>> {
+        self.inner.item_event(context, item_name)
+    }
+}
